@@ -20,8 +20,24 @@ trait Enc: Sized {
     fn dec(v: &Value) -> Self;
 }
 
-fn bv_signed(bits: u64, x: i64) -> Bitvector {
-    Bitvector::from_i64(x).into_resize_signed(ByteSize::new(bits / 8))
+fn bv_signed(bits: u64, x: i128) -> Bitvector {
+    Bitvector::from_i128(x).into_resize_signed(ByteSize::new(bits / 8))
+}
+
+/// a signed value of `bits` bits as JSON: a number up to 64 bits, a decimal string above
+fn jv(bits: u64, x: i128) -> Value {
+    if bits <= 64 {
+        json!(x as i64)
+    } else {
+        json!(x.to_string())
+    }
+}
+
+fn get_i128(v: &Value) -> i128 {
+    match v {
+        Value::String(s) => s.parse().unwrap(),
+        _ => v.as_i64().unwrap() as i128,
+    }
 }
 
 impl Enc for BitvectorDomain {
@@ -63,17 +79,18 @@ impl Enc for Taint {
 impl Enc for IntervalDomain {
     fn enc(&self) -> Value {
         let j = serde_json::to_value(self).unwrap();
+        let start: Bitvector = serde_json::from_value(j["interval"]["start"].clone()).unwrap();
+        let bits = u64::from(start.bytesize()) * 8;
         let bv = |v: &Value| -> Value {
             if v.is_null() {
                 Value::Null
             } else {
                 let b: Bitvector = serde_json::from_value(v.clone()).unwrap();
-                json!(b.try_to_i64().unwrap())
+                jv(bits, b.try_to_i128().unwrap())
             }
         };
-        let start: Bitvector = serde_json::from_value(j["interval"]["start"].clone()).unwrap();
         json!({
-            "w": u64::from(start.bytesize()) * 8,
+            "w": bits,
             "s": bv(&j["interval"]["start"]),
             "e": bv(&j["interval"]["end"]),
             "st": j["interval"]["stride"],
@@ -88,7 +105,7 @@ impl Enc for IntervalDomain {
             if x.is_null() {
                 Value::Null
             } else {
-                serde_json::to_value(bv_signed(w, x.as_i64().unwrap())).unwrap()
+                serde_json::to_value(bv_signed(w, get_i128(x))).unwrap()
             }
         };
         serde_json::from_value(json!({
@@ -260,28 +277,36 @@ fn gen_taint(rng: &mut Rng, size: u64) -> Value {
     }
 }
 
-fn smin(bits: u64) -> i64 {
-    if bits >= 64 { i64::MIN } else { -(1i64 << (bits - 1)) }
+fn smin(bits: u64) -> i128 {
+    if bits >= 128 { i128::MIN } else { -(1i128 << (bits - 1)) }
 }
-fn smax(bits: u64) -> i64 {
-    if bits >= 64 { i64::MAX } else { (1i64 << (bits - 1)) - 1 }
+fn smax(bits: u64) -> i128 {
+    if bits >= 128 { i128::MAX } else { (1i128 << (bits - 1)) - 1 }
 }
 
 /// a signed value of `bits` bits, biased towards the boundaries and small numbers
-fn gen_sval(rng: &mut Rng, bits: u64) -> i64 {
+/// (for 128 bits also towards multiples of 2^64, where `try_to_u64` starts to fail)
+fn gen_sval(rng: &mut Rng, bits: u64) -> i128 {
     let (lo, hi) = (smin(bits), smax(bits));
     match rng.below(8) {
         0 => lo,
         1 => hi,
-        2 => lo + rng.below(6) as i64,
-        3 => hi - rng.below(6) as i64,
-        4 | 5 => rng.range(-20, 20).clamp(lo, hi),
+        2 => lo + rng.below(6) as i128,
+        3 => hi - rng.below(6) as i128,
+        4 | 5 => (rng.range(-20, 20) as i128).clamp(lo, hi),
+        6 if bits > 64 => {
+            let k = rng.range(-3, 3) as i128;
+            (k << 64) + rng.range(-4, 4) as i128
+        }
         _ => {
             if bits == 8 {
-                rng.range(-128, 127)
-            } else {
+                rng.range(-128, 127) as i128
+            } else if bits <= 64 {
                 let x = rng.next() as i64;
-                if bits >= 64 { x } else { (x << (64 - bits)) >> (64 - bits) }
+                (if bits >= 64 { x } else { (x << (64 - bits)) >> (64 - bits) }) as i128
+            } else {
+                let x = ((rng.next() as u128) << 64 | rng.next() as u128) as i128;
+                x >> rng.below(100)
             }
         }
     }
@@ -292,18 +317,18 @@ fn gen_sval(rng: &mut Rng, bits: u64) -> i64 {
 fn gen_iv(rng: &mut Rng, bits: u64, raw: bool) -> Value {
     let (lo, hi) = (smin(bits), smax(bits));
     if rng.chance(1, 24) {
-        return json!({"w": bits, "s": lo, "e": hi, "st": 1, "lo": null, "up": null, "d": 0});
+        return json!({"w": bits, "s": jv(bits, lo), "e": jv(bits, hi), "st": 1, "lo": null, "up": null, "d": 0});
     }
-    let hint = |rng: &mut Rng, base: i64, below: bool| -> Value {
+    let hint = |rng: &mut Rng, base: i128, below: bool| -> Value {
         match rng.below(5) {
             0 | 1 => Value::Null,
-            2 => json!(gen_sval(rng, bits)),
+            2 => jv(bits, gen_sval(rng, bits)),
             _ => {
                 let span = if rng.chance(1, 2) { 6 } else { 60 };
-                let d = 1 + rng.below(span) as i64;
+                let d = 1 + rng.below(span) as i128;
                 let x = if below { base.checked_sub(d) } else { base.checked_add(d) };
                 match x {
-                    Some(x) if x >= lo && x <= hi => json!(x),
+                    Some(x) if x >= lo && x <= hi => jv(bits, x),
                     _ => Value::Null,
                 }
             }
@@ -329,30 +354,36 @@ fn gen_iv(rng: &mut Rng, bits: u64, raw: bool) -> Value {
             8 => 1 + rng.below(16),
             _ => 1 + rng.below(if bits == 8 { 100 } else { 100_000 }),
         };
-        let room = (hi as i128 - s as i128) as u128;
+        let room = hi.wrapping_sub(s) as u128; // hi >= s, the difference fits in u128
         let maxn = if st == 0 { 0 } else { room / st as u128 };
-        let n = if maxn == 0 {
+        let n: u128 = if maxn == 0 {
             0
+        } else if bits > 64 && rng.chance(1, 3) {
+            // long intervals: lengths around and above 2^64
+            let k = ((1u128 << 64) / st as u128) * (1 + rng.below(3) as u128) + rng.below(3) as u128;
+            k.min(maxn)
         } else {
             let cap = maxn.min(if rng.chance(1, 2) { 5 } else { 300 }) as u64;
-            rng.below(cap + 1)
+            rng.below(cap + 1) as u128
         };
         if n == 0 || st == 0 {
             (s, s, 0)
         } else {
-            (s, (s as i128 + (st as i128) * n as i128) as i64, st)
+            (s, s.wrapping_add((st as u128 * n) as i128), st)
         }
     };
     let lo_h = hint(rng, s, true);
     let up_h = hint(rng, e, false);
-    let len = (e as i128 - s as i128).unsigned_abs() as u64;
-    let d = match rng.below(6) {
+    let len = if e >= s { e.wrapping_sub(s) as u128 } else { s.wrapping_sub(e) as u128 };
+    let len64 = if len > u64::MAX as u128 { u64::MAX } else { len as u64 };
+    let d = match rng.below(7) {
         0 | 1 | 2 => 0,
-        3 => len,
+        3 => len64,
         4 => rng.below(10),
-        _ => rng.below(300),
+        5 => rng.below(300),
+        _ => u64::MAX - rng.below(3),
     };
-    json!({"w": bits, "s": s, "e": e, "st": st, "lo": lo_h, "up": up_h, "d": d})
+    json!({"w": bits, "s": jv(bits, s), "e": jv(bits, e), "st": st, "lo": lo_h, "up": up_h, "d": d})
 }
 
 fn gen_val(rng: &mut Rng, vk: &str, size: u64) -> Value {
@@ -420,17 +451,17 @@ fn gen_related(rng: &mut Rng, vk: &str, size: u64, a: &Value) -> Value {
             let bits = 8 * size;
             match rng.below(4) {
                 0 => b["d"] = json!(rng.below(20)),
-                1 => b["lo"] = if rng.chance(1, 3) { Value::Null } else { json!(gen_sval(rng, bits)) },
-                2 => b["up"] = if rng.chance(1, 3) { Value::Null } else { json!(gen_sval(rng, bits)) },
+                1 => b["lo"] = if rng.chance(1, 3) { Value::Null } else { jv(bits, gen_sval(rng, bits)) },
+                2 => b["up"] = if rng.chance(1, 3) { Value::Null } else { jv(bits, gen_sval(rng, bits)) },
                 _ => {
                     // shift by a multiple of the stride (loop counter pattern)
                     let st = a["st"].as_u64().unwrap().max(1) as i128;
                     let k = st * (1 + rng.below(3) as i128);
-                    let s = a["s"].as_i64().unwrap() as i128 + k;
-                    let e = a["e"].as_i64().unwrap() as i128 + k;
-                    if e <= smax(bits) as i128 && s <= e {
-                        b["s"] = json!(s as i64);
-                        b["e"] = json!(e as i64);
+                    if let (Some(s), Some(e)) = (get_i128(&a["s"]).checked_add(k), get_i128(&a["e"]).checked_add(k)) {
+                        if e <= smax(bits) && s <= e {
+                            b["s"] = jv(bits, s);
+                            b["e"] = jv(bits, e);
+                        }
                     }
                 }
             }
@@ -550,7 +581,7 @@ fn main() {
     let args = Args::parse();
     let mut out = Out::new(
         &args,
-        "pairs (a,b) of abstract values of one kind: BitvectorDomain, Taint, IntervalDomain (1/4/8 bytes, well-formed with \
+        "pairs (a,b) of abstract values of one kind: BitvectorDomain, Taint, IntervalDomain (1/4/8/16 bytes, well-formed with \
          arbitrary hints and delays, plus a raw stream), DataDomain<Bitvector|Interval> over 4 ids, DomainMap with 0-6 of 8 keys \
          under Union/Intersect/MergeTop over each value kind, MemRegion from write histories; b independent, equal or a small \
          edit of a; real merge, merge_with, merge(merge(a,b),b), merge(a,a) executed; non-trivial = merge result differs from \
@@ -586,10 +617,10 @@ fn main() {
 
     // plain values
     let n_small = args.num("small", 1500, 40_000);
-    let n_iv = args.num("iv", 45_000, 900_000);
-    let n_data = args.num("data", 5000, 150_000);
-    let n_map = args.num("maps", 700, 25_000);
-    let n_mem = args.num("mem", 1500, 60_000);
+    let n_iv = args.num("iv", 45_000, 600_000);
+    let n_data = args.num("data", 5000, 80_000);
+    let n_map = args.num("maps", 700, 10_000);
+    let n_mem = args.num("mem", 1500, 25_000);
     for vk in ["bv", "taint"] {
         if !has(vk) {
             continue;
@@ -605,7 +636,7 @@ fn main() {
     }
     if has("iv") {
         for i in 0..n_iv {
-            let bits = if i % 8 < 6 { 8 } else if i % 8 == 6 { 32 } else { 64 };
+            let bits = if i % 16 == 15 { 128 } else if i % 8 < 6 { 8 } else if i % 8 == 6 { 32 } else { 64 };
             let raw = rng.chance(1, 16);
             let a = gen_iv(&mut rng, bits, raw);
             let raw_b = rng.chance(1, 2);
